@@ -29,7 +29,7 @@ RULE = ("seeded random configurations: non-constant pilot vectors shorter than N
 REQUIRED = ["tile_checked", "tile_nonconstant_pilot", "prefix_checked:nonnegmean", "prefix_checked:assertion",
             "comparison_checked", "polling_checked", "interleave_checked", "contest_max_checked", "audit_max_checked",
             "estimate_strictly_between_1_and_N", "never_crossed_returns_N", "random_order_false_cases",
-            "contract:Assertion.find_sample_size", "raire_estimator_checked", "comparison_checked_assorter_bound_not_1"]
+            "contract:Assertion.find_sample_size", "raire_estimator_checked", "comparison_checked_assorter_bound_not_1", "audit_oneaudit_checked", "audit_oneaudit_both_rates_positive"]
 ASSUMPTIONS = ["int(1/r) is the documented spacing of assumed errors", "n_big >= 1 for interleave_values (a polling "
                "assertion has winner tally > loser tally >= 0)", "rates are always passed explicitly for comparison audits"]
 N_CASES = {"quick": 64000, "thorough": 512000}
@@ -60,7 +60,8 @@ def first_crossing(hist, alpha, N):
 
 def run_shard(spec, rec):
     rng = random.Random(f"c16-{spec['seed']}-{spec['shard']}")
-    kinds = ("tile", "tile", "prefix", "comparison", "comparison", "polling", "interleave", "contest", "audit", "raire_estimator")
+    kinds = ("tile", "tile", "prefix", "comparison", "comparison", "polling", "interleave", "contest", "audit", "raire_estimator",
+             "audit_oneaudit")
     for i in range(spec["n"]):
         kind = kinds[i % len(kinds)]
         case = {"kind": kind, "cseed": rng.randrange(10 ** 9), "Nmax": spec["Nmax"]}
@@ -87,7 +88,7 @@ def run_case(case, rec):
     kind = case["kind"]
     return {"tile": run_tile, "prefix": run_prefix, "comparison": run_comparison, "polling": run_polling,
             "interleave": run_interleave, "contest": run_contest, "audit": run_audit,
-            "raire_estimator": run_raire_estimator}[kind](case, rng, rec)
+            "raire_estimator": run_raire_estimator, "audit_oneaudit": run_audit_oneaudit}[kind](case, rng, rec)
 
 
 def gen_pilot(rng, u, t, N):
@@ -484,3 +485,75 @@ def run_raire_estimator(case, rng, rec):
     if got != want:
         rec.violation("c16.raire", "raire_estimate_is_not_first_crossing_on_assumed_data",
                       {"estimate": got, "first_crossing": want, "N": N, "mean": mean, "polling": polling, "r1": r1, "r2": r2, "alpha": alpha})
+
+
+def run_audit_oneaudit(case, rng, rec):
+    """Audit.find_sample_size before any card is examined, ONEAudit: the documented population is the error-free
+    overstatement-assorter values of the CVRs against themselves (pooled cards included), with the one-vote value at every
+    floor(1/r1)-th position and then 0 at every floor(1/r2)-th position, tiled to N."""
+    es = E.gen_spec(rng, n_contests=rng.choice((1, 2)), n_cards=rng.choice((20, 40, 60)), error_rate=0, allow_wrong=False,
+                    kinds=("plurality", "plurality", "supermajority"), style=True, audit_types=("ONEAUDIT",), phantom_rate=0)
+    for con in es["contests"].values():
+        con["test"], con["estim"], con["bet"], con["test_kwargs"] = rng.choice((("alpha_mart", "shrink_trunc", None, {"d": 10, "f": 0}),
+                                                                                  ("alpha_mart", "optimal_comparison", None, {}),
+                                                                                  ("betting_mart", None, "agrapa", {})))
+    ok, sim = rec.guard("c16.setup", lambda: E.Sim(es).setup())
+    rec.case(dict(case, n_cards=len(es["cards"])), nontrivial=True)
+    if not ok:
+        return
+    if any(a.margin is None or not a.margin > 0 for con in sim.contests.values() for a in con.assertions.values()):
+        rec.count("audit_case_nonpositive_margin_skipped")
+        return
+    r1, r2 = rng.choice((0.05, 0.1, 0.25, 0.5, 0)), rng.choice((0.05, 0.1, 0.25, 0, 0.02))
+    sim.audit.error_rate_1, sim.audit.error_rate_2, sim.audit.reps = r1, r2, None
+    for c in sim.cvr_list:
+        c.sampled = False
+    sink = io.StringIO()
+    del LOG[:]
+    with np.errstate(all="ignore"), contextlib.redirect_stdout(sink):
+        ok, total = rec.guard("c16.call:Audit.find_sample_size", sim.audit.find_sample_size, sim.contests, sim.cvr_list)
+        if not ok:
+            return
+        rec.count("audit_oneaudit_checked")
+        if r1 and r2:
+            rec.count("audit_oneaudit_both_rates_positive")
+        for cid, con in sim.contests.items():
+            worst = 0
+            for name, asn in con.assertions.items():
+                ok, du = rec.guard("c16.call:mvrs_to_data", asn.mvrs_to_data, sim.cvr_list, sim.cvr_list, True)
+                if not ok:
+                    return
+                data = [float(v) for v in du[0]]
+                ua, v = asn.assorter.upper_bound, asn.margin
+                if ua != 1 and r2:
+                    # for an assorter bound other than 1 the library's two entry points disagree on what a "two-vote
+                    # overstatement" is worth (Assertion.find_sample_size writes 0, this branch writes
+                    # make_overstatement(1) = (1 - 1/u_a)/(2 - v/u_a)); the property does not settle it, so the
+                    # population is compared only where both readings coincide
+                    rec.count("audit_oneaudit_ambiguous_two_vote_value_skipped")
+                    worst = None
+                    break
+                one = (1 - 0.5 / ua) / (2 - v / ua)
+                if r1:
+                    for j in range(0, len(data), math.floor(1 / r1)):
+                        data[j] = one
+                if r2:
+                    for j in range(0, len(data), math.floor(1 / r2)):
+                        data[j] = 0.0
+                N = asn.test.N
+                pop = (data * (N // len(data) + 1))[:N]
+                ok, res = rec.guard("c16.call:test", asn.test.test, np.array(pop, dtype=float))
+                if not ok:
+                    return
+                want = first_crossing(np.asarray(res[1], dtype=float), con.risk_limit, N)
+                got = [r for a, r in LOG if a is asn]
+                if not got or got[-1] != want:
+                    rec.violation("c16.comparison", "oneaudit_estimate_is_not_first_crossing_on_documented_population",
+                                  {"contest": cid, "assertion": name, "estimate": got[-1] if got else None, "first_crossing": want,
+                                   "rate_1": r1, "rate_2": r2, "N": N, "n_data": len(data)})
+                    return
+                worst = max(worst, want)
+            if worst is not None and con.sample_size != worst:
+                rec.violation("c16.max", "audit_sets_contest_size_to_something_else_than_the_largest_unproved_assertion_estimate",
+                              {"contest": cid, "sample_size": con.sample_size, "largest": worst})
+                return
